@@ -1,4 +1,4 @@
-import Proofs.Conf
+import Proofs.Conf2
 import Proofs.Lift
 
 /-! C08: the model algebra of a conformalised layout satisfies the relations used in `Proofs/Conf.lean`.
@@ -29,5 +29,42 @@ theorem conformal_rel (n : Nat) (hN : N = n + 2) (h1 : sig n = 1) (h2 : sig (n +
   h1 := vec_mul_e_anticomm v n (by omega) (fun i hi => hv i (by omega))
   h2 := vec_mul_e_anticomm v (n + 1) (by omega) (fun i hi => hv i (by omega))
   h3 := e_anticomm n (n + 1) (by omega) (by omega) (by omega)
+
+end Cl
+
+namespace Cl
+open Finset
+variable {N : Nat} {sig : Nat → ℚ}
+
+theorem vec_add (v w : Fin N → ℚ) : (vec (v + w) : Cl N sig) = vec v + vec w := (vecLin (n := N) (sig := sig)).map_add v w
+
+/-- two base vectors: `w v = (Q(v+w) - Q v - Q w) - v w` -/
+theorem vec_mul_vec_comm (v w : Fin N → ℚ) :
+    (vec w : Cl N sig) * vec v = (2 * ((Q N sig (v + w) - Q N sig v - Q N sig w) / 2)) • (1 : Cl N sig) - vec v * vec w := by
+  have h := vec_sq (sig := sig) (v + w)
+  rw [vec_add, Algebra.algebraMap_eq_smul_one] at h
+  have hv := vec_sq (sig := sig) v
+  have hw := vec_sq (sig := sig) w
+  rw [Algebra.algebraMap_eq_smul_one] at hv hw
+  have e : (vec v + vec w : Cl N sig) * (vec v + vec w) = vec v * vec v + vec w * vec w + (vec v * vec w + vec w * vec v) := by
+    noncomm_ring
+  rw [e, hv, hw] at h
+  have h2 : (vec v : Cl N sig) * vec w + vec w * vec v = (Q N sig (v + w) - Q N sig v - Q N sig w) • (1 : Cl N sig) := by
+    have : (vec v : Cl N sig) * vec w + vec w * vec v
+        = (Q N sig (v + w)) • (1 : Cl N sig) - ((Q N sig v) • (1 : Cl N sig) + (Q N sig w) • (1 : Cl N sig)) := by
+      rw [← h]; abel
+    rw [this]; module
+  have h3 : (vec w : Cl N sig) * vec v = (Q N sig (v + w) - Q N sig v - Q N sig w) • (1 : Cl N sig) - vec v * vec w := by
+    rw [← h2]; abel
+  rw [h3]; congr 2; ring
+
+/-- the two-vector relations hold in the model of every conformalised layout -/
+theorem conformal_rel2 (n : Nat) (hN : N = n + 2) (h1 : sig n = 1) (h2 : sig (n + 1) = -1)
+    (v w : Fin N → ℚ) (hv : ∀ i : Fin N, n ≤ i.val → v i = 0) (hw : ∀ i : Fin N, n ≤ i.val → w i = 0) :
+    Conf.Rel2 (vec v : Cl N sig) (vec w) (e n (by omega)) (e (n + 1) (by omega)) (Q N sig v) (Q N sig w)
+      ((Q N sig (v + w) - Q N sig v - Q N sig w) / 2) where
+  rx := conformal_rel n hN h1 h2 v hv
+  ra := conformal_rel n hN h1 h2 w hw
+  hax := vec_mul_vec_comm v w
 
 end Cl
